@@ -442,6 +442,14 @@ def _num(v):
     return v
 
 
+def _as(v):
+    """Sym (or dual number) view of a value"""
+    from .ad import Dual
+    if isinstance(v, Dual):
+        return v
+    return symx.as_sym(_num(v))
+
+
 INTRINSIC1 = {'exp': 'exp', 'log': 'log', 'sin': 'sin', 'cos': 'cos', 'tan': 'tan', 'tanh': 'tanh', 'sinh': 'sinh',
               'cosh': 'cosh', 'atan': 'arctan', 'asin': 'arcsin', 'acos': 'arccos', 'sqrt': 'sqrt'}
 
@@ -489,7 +497,7 @@ class Interp:
             return None
         out = []
         for x in d['dims']:
-            if x.strip() == ':':
+            if x.strip() in (':', '*'):
                 out.append(None)
             else:
                 v = self.eval(parse_expr(x), env, u)
@@ -510,7 +518,8 @@ class Interp:
                         raise symx.Unsupported(f"symbolic value for integer dummy {a}")
                     return FInt(int(c))
                 return FInt(int(v))
-            return v if isinstance(v, Sym) else symx.val(v)
+            from .ad import Dual
+            return v if isinstance(v, (Sym, Dual)) else symx.val(v)
         arr = v if isinstance(v, np.ndarray) else np.asarray([v], dtype=object)
         for k, dm in enumerate(dims):
             if dm is not None and (k >= arr.ndim or arr.shape[k] != dm):
@@ -695,7 +704,7 @@ class Interp:
             a, b = self.eval(e[1], env, u), self.eval(e[2], env, u)
             if _is_int(a) and _is_int(b):
                 return FInt(int(a) ** int(b)) if b >= 0 else FInt(0 if abs(a) > 1 else int(a) ** int(b))
-            a = symx.as_sym(_num(a)) if not isinstance(a, np.ndarray) else a
+            a = _as(a) if not isinstance(a, np.ndarray) else a
             if _is_int(b):
                 return a ** int(b)
             if isinstance(b, Sym):
@@ -705,6 +714,9 @@ class Interp:
             return a ** b
         if k == 'rel':
             a, b = _num(self.eval(e[2], env, u)), _num(self.eval(e[3], env, u))
+            from .ad import Dual
+            a = a.p if isinstance(a, Dual) else a
+            b = b.p if isinstance(b, Dual) else b
             op = e[1]
             if not isinstance(a, Sym) and not isinstance(b, Sym):
                 return {'==': a == b, '/=': a != b, '<': a < b, '<=': a <= b, '>': a > b, '>=': a >= b}[op]
@@ -749,8 +761,8 @@ class Interp:
     def intrinsic(self, nm, v):
         def el(fn, x):
             if isinstance(x, np.ndarray):
-                return SArr(np.array([fn(symx.as_sym(_num(c))) for c in x.reshape(-1)], dtype=object).reshape(x.shape))
-            return fn(symx.as_sym(_num(x)))
+                return SArr(np.array([fn(_as(c)) for c in x.reshape(-1)], dtype=object).reshape(x.shape))
+            return fn(_as(x))
         if nm in INTRINSIC1:
             meth = INTRINSIC1[nm]
             return el(lambda s: getattr(s, meth)(), v[0])
@@ -767,7 +779,11 @@ class Interp:
                 if _is_int(r) and _is_int(x):
                     r = FInt(max(r, x) if nm == 'max' else min(r, x))
                 else:
-                    r = symx.smax(_num(r), _num(x)) if nm == 'max' else symx.smin(_num(r), _num(x))
+                    from .ad import Dual, dmax, dmin
+                    if isinstance(r, Dual) or isinstance(x, Dual):
+                        r = dmax(_num(r), _num(x)) if nm == 'max' else dmin(_num(r), _num(x))
+                    else:
+                        r = symx.smax(_num(r), _num(x)) if nm == 'max' else symx.smin(_num(r), _num(x))
             return r
         if nm == 'size':
             if not isinstance(v[0], np.ndarray):
